@@ -10,18 +10,21 @@ open MongoModel MongoModel.Expr
 
 /-! ### `$expr` -/
 
-theorem truthy_eq_toBool (v : Val) (h : Spec.pyFalsyButTrue (some v) = false) :
-    v.truthy = Spec.toBool (some v) := by
-  cases v <;> simp_all [Val.truthy, Spec.toBool, Spec.pyFalsyButTrue]
+/-- **expr_filter_spec**: the matcher's verdict is `toBool` of the value of the expression,
+    a missing value being false; an error of the expression is the error of the filter -/
+theorem expr_filter_full (e d : Val) : exprFilter e d = (evalExpr d e).map Spec.toBool := by
+  unfold exprFilter
+  cases evalExpr d e with
+  | error err => rfl
+  | ok r => simp [Except.map, toBoolOpt_eq]
 
-theorem expr_filter_value (e d v : Val) (h : evalExpr d e = .ok (some v))
-    (ht : Spec.pyFalsyButTrue (some v) = false) :
-    exprFilter e d = .ok (Spec.toBool (some v)) := by
-  simp [exprFilter, h, truthy_eq_toBool v ht]
+theorem expr_filter_value (e d : Val) (r : Option Val) (h : evalExpr d e = .ok r) :
+    exprFilter e d = .ok (Spec.toBool r) := by
+  simp [expr_filter_full, h, Except.map]
 
 theorem expr_filter_missing (e d : Val) (h : evalExpr d e = .ok none) :
-    exprFilter e d = .error .keyErr := by
-  simp [exprFilter, h]
+    exprFilter e d = .ok false := by
+  simp [expr_filter_full, h, Except.map, Spec.toBool]
 
 theorem expr_filter_error (e d : Val) (err : Err) (h : evalExpr d e = .error err) :
     exprFilter e d = .error err := by
@@ -195,6 +198,8 @@ theorem strVals_map (ss : List String) : strVals (ss.map .str) = .ok ss := by
 theorem concat_strings (ss : List String) :
     concatOp (ss.map .str) = .ok (.str (String.join ss)) := by
   have h : (ss.map Val.str).any isNull = false := by simp [List.any_eq_false, isNull]
-  simp [concatOp, h, strVals_map, bind, Except.bind, pure, Except.pure]
+  have h' : (ss.map Val.str).any (fun v => !isNull v && !isStr v) = false := by
+    simp [List.any_eq_false, isNull, isStr]
+  simp [concatOp, h, h', strVals_map, bind, Except.bind, pure, Except.pure]
 
 end MongoModel.Proofs.C04
